@@ -10,6 +10,7 @@
 #include <cstdlib>
 #include <cstring>
 #include <fcntl.h>
+#include <ctime>
 #include <fstream>
 #include <iostream>
 #include <sys/mman.h>
@@ -103,13 +104,23 @@ int main(int argc, char **argv) {
     // shrinking is bounded by a COUNT of evaluations after the first failure (it only makes the replay
     // file smaller): later-added choices are read from the end of the tape, so that removing a byte
     // re-decodes them and greedy shrinking of a blatant failure can go on for a very long time
+    // ... and by 120 s of wall clock for failures whose every re-run is expensive (an analysis running into
+    // its event budget). Neither bound can change a verdict: the first failing tape is already saved.
     unsigned long shrink_evals = 0, shrink_cap = 6000;
+    long shrink_secs = 120;
+    time_t shrink_t0 = 0;
     if (const char *p = getenv("VERIF_SHRINK_EVALS"))
       shrink_cap = strtoul(p, nullptr, 10);
+    if (const char *p = getenv("VERIF_SHRINK_SECS"))
+      shrink_secs = strtol(p, nullptr, 10);
     bool ok = rc::check(harness_name(), [&]() {
       const auto t = *tape_gen();
-      if (R().frozen && ++shrink_evals > shrink_cap)
-        return; // candidate not examined: counts as passing, the current failing tape stays the result
+      if (R().frozen) {
+        if (!shrink_t0)
+          shrink_t0 = time(nullptr);
+        if (++shrink_evals > shrink_cap || time(nullptr) - shrink_t0 > shrink_secs)
+          return; // candidate not examined: counts as passing, the current failing tape stays the result
+      }
       note_current(t);
       int rcx = run_case_wrapped(t.data(), t.size(), false);
       if (rcx) {
